@@ -253,7 +253,7 @@ func c16Judge(root, pat string) (detail string, nontrivial, skipped bool) {
 }
 
 func c16Trees(thorough bool) [][]c16Entry {
-	names := []string{"a", "b", "ab", ".a", "*", "a.b", "é"}
+	names := []string{"a", "b", "ab", ".a", "*", "a.b", "é", "\\", "a\\b"}
 	var trees [][]c16Entry
 	trees = append(trees, nil)
 	for i, n1 := range names {
@@ -413,7 +413,7 @@ func init() {
 	register(&check{
 		id:    "C16",
 		level: "model_checking",
-		rule: "every tree with ≤ 2 entries over names {a b ab .a * a.b é} × kinds {file, empty dir, dir{a}, dir{.a}, dir{a,b,a.b}, dangling symlink, symlink to a directory} and every 3-entry tree over a reduced kind set, " +
+		rule: "every tree with ≤ 2 entries over names {a b ab .a * a.b é \\ a\\b} × kinds {file, empty dir, dir{a}, dir{.a}, dir{a,b,a.b}, dangling symlink, symlink to a directory} and every 3-entry tree over a reduced kind set, " +
 			"× every pattern ≤ 3 (quick) / 4 (thorough) symbols over {a b * ? [ ] . / \\} plus absolute and multi-level shapes; non-trivial = the model expects at least one path",
 		assume: []string{"Lstat/Stat/ReadDir of the scratch tree are taken as facts; matching, hidden-file rule, directory-only rule and ordering are the model's",
 			"patterns with a component that is not a well-formed pattern (unterminated bracket, trailing backslash) are only required not to panic",
